@@ -439,3 +439,46 @@ func ruleLCSExhaustive(c *Ctx) {
 		c.note("rescache.lcs: no pair of branches comparing the same table cells (the algorithm has another shape): nothing to decide")
 	}
 }
+
+// ---------------------------------------------------------------------------
+// TABLE/remove-run (C12, C03): events are applied one after the other, and a
+// remove shifts everything behind it. A loop that emits a remove per iteration
+// with the loop's own ascending counter as the index (`for ; s < m; s++ {
+// remove(Idx: s) }`) removes every other element of the run it means to
+// remove. The index of removes emitted by one loop stays or descends.
+
+func ruleRemoveRun(c *Ctx) {
+	p := c.P
+	fIdx := p.Field("codec.RemoveEvent.Idx")
+	if fIdx == nil {
+		c.undecided("codec.RemoveEvent.Idx", "anchor", "-", "not found")
+		return
+	}
+	n := 0
+	for _, st := range p.stores[fIdx] {
+		fn := st.Parent()
+		if TopLevel(fn).Pkg == nil || TopLevel(fn).Pkg.Pkg.Name() != "rescache" {
+			continue
+		}
+		n++
+		c.inst(1)
+		bad := ""
+		if ph, ok := st.Val.(*ssa.Phi); ok && loopBody(ph.Block())[st.Block()] {
+			for _, e := range ph.Edges {
+				if b, isB := e.(*ssa.BinOp); isB && b.Op == token.ADD && (b.X == ssa.Value(ph) || b.Y == ssa.Value(ph)) {
+					k, isC := constInt(b.Y)
+					if !isC {
+						k, isC = constInt(b.X)
+					}
+					if isC && k > 0 {
+						bad = "the index of the removes emitted by this loop is the loop's own ascending counter: each remove shifts the rest, so a run of elements is only half removed (clients end up with a different collection than the service's)"
+					}
+				}
+			}
+		}
+		c.check(bad == "", fnName(fn), "removes emitted by one loop do not use an ascending index", p.InstrPos(st), "index stays or descends", bad)
+	}
+	if n == 0 {
+		c.note("no remove event is built in the cache package")
+	}
+}
